@@ -102,3 +102,25 @@ def parse_expanding(payload, m):
     if off != len(payload) - 28:
         return None
     return counts, arrays, (n, est, added, rate)
+
+
+_ALIGNED = None
+
+
+def aligned_geometries():
+    """Sizings whose byte length (plain filter) or cell count (counting filter) is an exact multiple of 4096 - the
+    block size bulk operations tend to be written around.  Found by search once per process."""
+    global _ALIGNED
+    if _ALIGNED is None:
+        out = {"bytes": [], "cells": []}
+        for rate in (0.5, 0.3, 0.2, 0.1, 0.05, 0.01):
+            for est in range(50, 9000):
+                g = geometry(est, rate)
+                if g is None or g[0] > 40000:
+                    continue
+                if ((g[0] + 7) // 8) % 4096 == 0 and len(out["bytes"]) < 12:
+                    out["bytes"].append((est, rate))
+                if g[0] % 4096 == 0 and len(out["cells"]) < 12:
+                    out["cells"].append((est, rate))
+        _ALIGNED = out
+    return _ALIGNED
